@@ -121,7 +121,7 @@ func checkProfile(c profCase) *vk.Failure {
 }
 
 func TestProfile(t *testing.T) {
-	vk.Run(t, "profile", vk.Opts{Quick: 2400, Thorough: 50000}, func(t *rapid.T) profCase {
+	vk.Run(t, "profile", vk.Opts{Quick: 2400, Thorough: 35000}, func(t *rapid.T) profCase {
 		c := profCase{}
 		directed := rapid.IntRange(0, 2).Draw(t, "directed") == 0
 		c.Weighted = rapid.Bool().Draw(t, "weighted")
